@@ -423,6 +423,27 @@ def _with_pool(fn):
 
 def run(res: C.Result, deep: bool):
     _init_extra(res)
+
+    # several recordings with one DataCollection object (real threads, real clock; sequential use, no race involved)
+    ms_bad = []
+    for fmt in ("raw", "json", "quicklogger"):
+        for fl in (False, True):
+            r = D.multi_session_check(fmt, fl)
+            res.evaluations += 1
+            res.extra.setdefault("multi_session_runs", 0)
+            res.extra["multi_session_runs"] += 1
+            if r["exc"]:
+                ms_bad.append((r, f"recording {len(r['sessions'])} raised {r['exc']}"))
+                continue
+            for si, sess in enumerate(r["sessions"]):
+                if sess["sent"] != sess["read"]:
+                    ms_bad.append((r, f"recording {si} ({fmt}, flush_every_update={fl}): sent {sess['sent']}, the file(s) "
+                                      f"{sess['files']} contain {sess['read'][:14]}"))
+                    break
+    for r, what in ms_bad[:2]:
+        res.failures.append(C.Failure(clause="several_recordings_with_one_collection: " + what[:150],
+                                      case={"multi_session": {"fmt": r["fmt"], "flush_every_update": r["flush_every_update"]}},
+                                      detail=what))
     rng = C.rng_for(res.seed, "C17" + ("deep" if deep else ""))
     items: List[Tuple[str, str, Any]] = []
     n = 0
@@ -513,6 +534,11 @@ def search(res: C.Result):
 
 
 def replay(body: Dict[str, Any]) -> int:
+    if "multi_session" in (body.get("case") or {}):
+        c = body["case"]["multi_session"]
+        r = D.multi_session_check(c["fmt"], c["flush_every_update"])
+        print(r)
+        return 1 if (r["exc"] or any(x["sent"] != x["read"] for x in r["sessions"])) else 0
     cc = body.get("case") or (body.get("first_corr_diff") or {}).get("case")
     if not cc or "case" not in cc:
         print("nothing replayable in this file")
